@@ -33,7 +33,7 @@ CHECKS = {
         ref="DESIGN.md §3 C04",
     ),
     "C06": dict(
-        technique="static analysis: element-wise symbolic execution (clang-14 JSON AST -> sympy closed form of a generic array element, reductions as Sum) of the forward kernel's per-image contribution and of the inverse kernel; coefficient extraction and trigonometric identity checks; open-term comparison of the two Python references; structural pairing rule for the Smith-normal-form enumeration of commensurate points; history-independence rule on run(); three-valued value-preservation analysis (same / changed / other, through copies, dtype conversions, locals and module helpers) of caller-supplied commensurate points; rounding-before-integer-conversion rule followed from parameters to call sites; after its own rules, the other properties' rules on the files this property is anchored in (anchor-scoped delegation, instances cached per tree digest); interval evaluation of the extended-Euclid step for divisors of either sign",
+        technique="static analysis: element-wise symbolic execution (clang-14 JSON AST -> sympy closed form of a generic array element, reductions as Sum) of the forward kernel's per-image contribution and of the inverse kernel; coefficient extraction and trigonometric identity checks; open-term comparison of the two Python references; structural pairing rule for the Smith-normal-form enumeration of commensurate points; history-independence rule on run(); three-valued value-preservation analysis (same / changed / other, through copies, dtype conversions, locals and module helpers) of caller-supplied commensurate points; rounding-before-integer-conversion rule followed from parameters to call sites; after its own rules, the other properties' rules on the files this property is anchored in (anchor-scoped delegation, instances cached per tree digest); interval evaluation of the extended-Euclid step for divisors of either sign; frame typing of the supercell matrix handed to the commensurate-point generator",
         level="other",
         text="Decides that the inverse transform is, term by term, the counterpart of the forward one, which is what makes FC -> D(q_k) -> FC the identity on translationally invariant force constants: it sums over exactly N = num_satom/num_patom points; it multiplies D_k by the complex conjugate of the forward phase factor, averaged over the same shortest-vector images of the same (supercell atom, primitive atom) pair; it takes the real part of D e^{i phi}; it multiplies by sqrt(m_i m_j')/N where the forward kernel divides by sqrt(m_i m_j); the Python references do the same; the integer commensurate points run once over range(D0) x range(D1) x range(D2) with each index scaled by the other two Smith-normal-form entries. Does not decide that the enumerated points are distinct modulo reciprocal lattice vectors, numeric equality of a round trip, or Phonopy.ph2ph. Also decides that run() starts from zeroed force constants on every call and that commensurate points supplied by the caller are stored as given (the dynamical matrices supplied next belong to exactly those q).",
         note="Trusted: clang-14 JSON AST, sympy (cos(-x) = cos(x) folding is accounted for by deciding phase sign and Re/Im combination jointly).",
@@ -68,7 +68,7 @@ CHECKS = {
         ref="DESIGN.md §3 C11",
     ),
     "C12": dict(
-        technique="static analysis: source-to-sympy derivative identity for the chain-rule coefficient, open-term comparison of the finite-difference and Grueneisen formulas with the documented ones, element-wise symbolic execution of the compiled derivative kernel compared with the sympy derivative of the forward kernel's closed form (FC part with image selection, NAC part), whole-class attribute resolution for objects constructed from repository classes, path enumeration of the q-point loops for band-order consistency of all per-band results; frame typing of the finite-difference displacement; open-term comparison of the group-velocity assembly sites; role-separation rule for the degeneracy tolerance; after its own rules, the other properties' rules on the files this property is anchored in (anchor-scoped delegation, instances cached per tree digest); symmetry-source rule for the Grueneisen mesh",
+        technique="static analysis: source-to-sympy derivative identity for the chain-rule coefficient, open-term comparison of the finite-difference and Grueneisen formulas with the documented ones, element-wise symbolic execution of the compiled derivative kernel compared with the sympy derivative of the forward kernel's closed form (FC part with image selection, NAC part), whole-class attribute resolution for objects constructed from repository classes, path enumeration of the q-point loops for band-order consistency of all per-band results; frame typing of the finite-difference displacement; open-term comparison of the group-velocity assembly sites; role-separation rule for the degeneracy tolerance; after its own rules, the other properties' rules on the files this property is anchored in (anchor-scoped delegation, instances cached per tree digest); symmetry-source rule for the Grueneisen mesh; frame typing of the little-group selection (products of reciprocal operations with q, stacks included) and entry-wise symbolic evaluation of the averaged term",
         level="other",
         text="Decides the coefficient clauses: the factor applied to <e|dD|e> is d(factor sqrt l)/dl, the numerical derivative is the symmetric difference over 2|dq|, gamma = -<e|dD|e>/(dV/V)/(2 l) with dD = D(V+) - D(V-) and the strain from the three supplied cells; that every documented access path (attribute/method on a locally constructed repository object) exists, and that eigenvalues, eigenvectors, <e|dD|e> and group velocities of one q-point are reordered by the same band connection. Does not decide that dD equals the derivative of D (loop nests), degeneracy handling or mesh agreement.",
         note="Trusted: CPython ast, sympy. Two known findings: phonopy-gruneisen calls two methods PhonopyGruneisen no longer has.",
@@ -89,21 +89,21 @@ CHECKS = {
         ref="DESIGN.md §3 C14",
     ),
     "C15": dict(
-        technique="static analysis on Python ast: interprocedural effect summaries (which repo functions mutate which argument in place), two-state typestate (written / rebuilt) over guard-correlated worlds for every public method and property setter of Phonopy, who-captures-the-dynamical-matrix analysis, copy-at-the-boundary rules for PhonopyAtoms, constructor-parameter exhaustiveness of copy(); after its own rules, the other properties' rules on the files this property is anchored in (anchor-scoped delegation, instances cached per tree digest); may-alias analysis of conditional copies changed in place",
+        technique="static analysis on Python ast: interprocedural effect summaries (which repo functions mutate which argument in place), two-state typestate (written / rebuilt) over guard-correlated worlds for every public method and property setter of Phonopy, who-captures-the-dynamical-matrix analysis, copy-at-the-boundary rules for PhonopyAtoms, constructor-parameter exhaustiveness of copy(); after its own rules, the other properties' rules on the files this property is anchored in (anchor-scoped delegation, instances cached per tree digest); may-alias analysis of conditional copies changed in place; the shared group-velocity and derivative objects are extra anchors for delegation (sticky per-call state)",
         level="other",
         text="Decides the clause that makes history independence possible at all: on every normal exit of every public state-changing operation (found through effect summaries, not a name list) the dynamical matrix and the persistent group-velocity helper are rebuilt from all four state fields, dataset writers drop the cached displaced supercells, builders do not feed a state field back into itself, cell objects hand out and store copies, and copy() forwards every constructor parameter. Histories are unbounded; the rule is per operation and therefore covers every sequence. Does not decide numerical equality with a fresh object.",
         note="Trusted: CPython ast; the accepted skip guards (no masses / no force constants yet) and the net-identity exception (show_drift_force_constants) are listed in the rule source. The documented zero-copy contract of Phonopy.force_constants is not judged. One known finding (deprecated frequency_scale_factor).",
         ref="DESIGN.md §3 C15",
     ),
     "C16": dict(
-        technique="static analysis on Python ast: extraction of the yaml keys the dumpers can emit (string/f-string templates, holes resolved through call-site literals) and of the keys the loaders read (taint from self._yaml), set agreement for the fields the property names, legacy-key table; format-string tokenisation of the whitespace-parsed text writers; who-passes-what rule for save() and monotonicity of the settings save() adjusts; site typing of the BORN symmetry expansion; default-fill discipline of the loading helpers (guarded writes into loaded dictionaries, merge order); flow-sensitive provenance of the masses each cell receives before save(); after its own rules, the other properties' rules on the files this property is anchored in (anchor-scoped delegation, instances cached per tree digest); class-level mutable default rule; resolved-argument rule of load(); same-name forwarding",
+        technique="static analysis on Python ast: extraction of the yaml keys the dumpers can emit (string/f-string templates, holes resolved through call-site literals) and of the keys the loaders read (taint from self._yaml), set agreement for the fields the property names, legacy-key table; format-string tokenisation of the whitespace-parsed text writers; who-passes-what rule for save() and monotonicity of the settings save() adjusts; site typing of the BORN symmetry expansion; default-fill discipline of the loading helpers (guarded writes into loaded dictionaries, merge order); flow-sensitive provenance of the masses each cell receives before save(); after its own rules, the other properties' rules on the files this property is anchored in (anchor-scoped delegation, instances cached per tree digest); class-level mutable default rule; resolved-argument rule of load(); same-name forwarding; finite-domain evaluation of the dumper's dataset section over its two settings",
         level="other",
         text="Decides the necessary conditions of write->read identity that are properties of the pair of functions: both sides use the same key names for every field the property lists, every other key the loader reads is emitted or a documented legacy key, save() hands all ten pieces of state to the dumper and never switches off an item the caller asked for, numeric columns of FORCE_SETS/FORCE_CONSTANTS/BORN cannot fuse whatever the magnitude, and the 6-column split matches the writer. Does not decide numerical equality after a round trip or hdf5 contents. Also decides that the BORN expansion applies the operation in the direction representative -> atom and that a value read from a file is never replaced by a calculator default on loading.",
         note="Trusted: CPython ast; legacy keys are a frozen table with one reason each; the latent prefix mismatch of the v2.23 legacy parser is reported as a note, not a finding.",
         ref="DESIGN.md §3 C16",
     ),
     "C17": dict(
-        technique="static analysis on Python ast: dispatch-table extraction and exhaustiveness over the calculator registry with callee existence/arity resolution, constant folding of units.py against a dimensional model of each unit string (factor, NAC factor, lengths, forces, conversion table), atom-order domain typing (original / sorted-by-species / permutation / grouped counts) in the structure writers, reader-tuple vs consumer shape agreement, refusal-path rule for create_FORCE_SETS, index-domain typing (file-row order vs atom-id order) of the id-keyed LAMMPS force loader; order-domain typing of the species grouping primitive; lookup-index typing (an index found by searching Y subscripts only lists in Y's order) in the interface modules; broadcast-alignment rule in the structure writers; after its own rules, the other properties' rules on the files this property is anchored in (anchor-scoped delegation, instances cached per tree digest); Gram-matrix identities of the cell-from-parameters routine; provenance typing of the SIESTA species tables",
+        technique="static analysis on Python ast: dispatch-table extraction and exhaustiveness over the calculator registry with callee existence/arity resolution, constant folding of units.py against a dimensional model of each unit string (factor, NAC factor, lengths, forces, conversion table), atom-order domain typing (original / sorted-by-species / permutation / grouped counts) in the structure writers, reader-tuple vs consumer shape agreement, refusal-path rule for create_FORCE_SETS, index-domain typing (file-row order vs atom-id order) of the id-keyed LAMMPS force loader; order-domain typing of the species grouping primitive; lookup-index typing (an index found by searching Y subscripts only lists in Y's order) in the interface modules; broadcast-alignment rule in the structure writers; after its own rules, the other properties' rules on the files this property is anchored in (anchor-scoped delegation, instances cached per tree digest); Gram-matrix identities of the cell-from-parameters routine; provenance typing of the SIESTA species tables; symbolic evaluation of the lattice assembly of readers with per-vector scale factors (backward slice of cell=)",
         level="other",
         text="Decides exhaustively over the 16 calculators: a handler exists with a compatible signature in all 7 dispatch functions; every unit number equals what its own unit strings imply (to 1e-9) so that one crystal gives the same THz in every unit system; no writer pairs a per-atom sequence in original order with one sorted by species (the defect only shows for interleaved input, which no sample file has); consumers index the reader's info tuple within its length; position mismatches refuse; force rows keyed by atom id are scattered to that id, never gathered through the ids, and incomplete id sets are refused. Does not decide textual round trips of particular files or lattice orientation conventions. Also decides, for the WIEN2k reader, that forces stored in case.scf order are addressed through an index looked up in a list of the same order.",
         note="Trusted: CPython ast; the per-atom meaning of two writer parameters (speci, conv_numbers) is a frozen table with reasons. Relative tolerance 1e-9 against constants folded from units.py itself.",
